@@ -243,7 +243,49 @@ class Problem:
             return self._run_B()
         if self.carrier == "A":
             return self._run_A()
+        if self.carrier == "C":
+            return self._run_C()
         raise NotImplementedError(self.carrier)
+
+    def sympy_inputs(self):
+        """The same problem as sympy matrices (real symbols named like the z3 variables)."""
+        import sympy
+
+        from . import sympy_bridge as sb
+
+        H0 = sympy.diag(*[sb.to_sympy(e) for e in self.E])
+        ham = {self.zero_order: H0}
+        for o, M in self.H.data.items():
+            if o != self.zero_order:
+                ham[o] = sb.matrix_to_sympy(M)
+        return ham
+
+    def _run_C(self):
+        """sympy carrier: the library's own symbolic mode (sympy branches of masks / Sylvester solver)."""
+        from pymablock import block_diagonalize
+
+        from . import sympy_bridge as sb
+
+        self._tr = sb.Translator()
+        self._sym_pairs = []
+        ham = self.sympy_inputs()
+        return block_diagonalize(ham, subspace_indices=list(self.blockof), hermitian=self.hermitian, **self.fd_kwarg())
+
+    def validate_translation(self, seed=0):
+        """Spot-check the sympy->SymC translation of library outputs at a seeded random rational point."""
+        from . import sympy_bridge as sb
+
+        if not getattr(self, "_sym_pairs", None):
+            return None
+        pt = sb.random_point(seed)
+        checked = 0
+        for expr, x in self._sym_pairs[-6:]:
+            r = sb.validate_pair(expr, x, pt)
+            if r is False:
+                return False
+            if r:
+                checked += 1
+        return checked > 0
 
     def _make_H_series(self, h0_blocks):
         from pymablock.series import BlockSeries, zero
@@ -319,6 +361,19 @@ class Problem:
             return symc.zeros(self.sizes[i], self.sizes[j])
         if v is one:
             return symc.eye(self.sizes[i])
+        try:
+            import sympy
+
+            if isinstance(v, sympy.MatrixBase):
+                out = np.empty(v.shape, dtype=object)
+                for a in range(v.shape[0]):
+                    for b in range(v.shape[1]):
+                        out[a, b] = self._tr(v[a, b])
+                        if out[a, b].den or not out[a, b].const_value():
+                            self._sym_pairs.append((v[a, b], out[a, b]))
+                v = out
+        except ImportError:
+            pass
         v = np.asarray(v, dtype=object)
         assert v.shape == (self.sizes[i], self.sizes[j]), (v.shape, i, j)
         return symc.const(v) if v.dtype != object else np.vectorize(lift, otypes=[object])(v)
@@ -466,3 +521,40 @@ def np_cauchy(factors, order):
             term = term @ f[c]
         acc = term if acc is None else acc + term
     return acc
+
+
+def sympy_run(P, model):
+    """Replay on the library's own symbolic mode with exact rational inputs (carrier C counterexamples)."""
+    import sympy
+    from pymablock import block_diagonalize
+    from pymablock.series import one, zero
+
+    def q(x):
+        re, im = evaluate(x, model)
+        return sympy.Rational(re.numerator, re.denominator) + sympy.I * sympy.Rational(im.numerator, im.denominator)
+
+    N = P.N
+    ham = {P.zero_order: sympy.diag(*[q(e) for e in P.E])}
+    for o, M in P.H.data.items():
+        if o != P.zero_order:
+            ham[o] = sympy.Matrix(N, N, lambda i, j: q(M[i, j]))
+    Ht, U, Ui = block_diagonalize(ham, subspace_indices=list(P.blockof), hermitian=P.hermitian, **P.fd_kwarg())
+
+    def full(S, order):
+        rows = []
+        for i in range(P.nb):
+            row = []
+            for j in range(P.nb):
+                v = S[(i, j, *order)]
+                if v is zero:
+                    v = np.zeros((P.sizes[i], P.sizes[j]))
+                elif v is one:
+                    v = np.eye(P.sizes[i])
+                else:
+                    v = np.array(sympy.Matrix(v).evalf(30).tolist(), dtype=complex)
+                row.append(np.asarray(v, dtype=complex))
+            rows.append(row)
+        return np.block(rows)
+
+    H_dense = {o: np.array(sympy.Matrix(M).evalf(30).tolist(), dtype=complex) for o, M in ham.items()}
+    return ({o: full(Ht, o) for o in P.orders}, {o: full(U, o) for o in P.orders}, {o: full(Ui, o) for o in P.orders}, H_dense)
